@@ -35,7 +35,23 @@ class FakeVar(object):
         return self._m.shape
 
     def __getitem__(self, k):
+        if not getattr(self, "auto_mask", True):
+            # netCDF4 with auto-masking switched off hands out the stored numbers, fill values included
+            return _np.ma.filled(self._m, -9999.0)[k]
         return self._m[k]
+
+    def set_auto_mask(self, flag):
+        self.auto_mask = bool(flag)
+
+    def set_auto_maskandscale(self, flag):
+        self.auto_mask = bool(flag)
+
+    def expected(self):
+        """what the reader must return: NaN at masked cells and at -999 / NaN / >1e30, the stored number elsewhere"""
+        d = _np.array(self._m.data, float)
+        miss = _np.ma.getmaskarray(self._m) | _np.isnan(d) | (d == -999) | (d > 1e30)
+        d[miss] = _np.nan
+        return d
 
 
 class FakeDataset(object):
@@ -46,6 +62,19 @@ class FakeDataset(object):
             setattr(self, k, v)
 
     def close(self):
+        pass
+
+    def set_auto_mask(self, flag):
+        for v in self.variables.values():
+            v.set_auto_mask(flag)
+
+    def set_auto_maskandscale(self, flag):
+        self.set_auto_mask(flag)
+
+    def set_auto_scale(self, flag):
+        pass
+
+    def set_always_mask(self, flag):
         pass
 
 
@@ -99,7 +128,8 @@ def _netcdf_reader():
                 with engine.patched(verif.input, netCDF4=_NC):
                     inp = verif.input.Netcdf("stub.nc")
                     cases += 1
-                    C = verif.util.clean
+                    # expectation computed independently of the repository (not by calling clean())
+                    C = lambda var: var.expected()
 
                     def want(name):
                         return C(V[name]) if name in V else None
@@ -107,7 +137,7 @@ def _netcdf_reader():
                     for attr, var in (("obs", "obs"), ("fcst", "fcst"), ("pit", "pit"), ("ensemble", "ensemble"), ("threshold_scores", "cdf"), ("quantile_scores", "x")):
                         got, w = getattr(inp, attr), want(var)
                         if (got is None) != (w is None) or (w is not None and not _same_arr(got, w)):
-                            problems.append("%s is not clean(variable '%s')" % (attr, var))
+                            problems.append("%s is not the variable '%s' with its missing cells as NaN" % (attr, var))
                     if not _same_arr(inp.times, C(V["time"])) or not _same_arr(inp.leadtimes, C(V["leadtime"])):
                         problems.append("times/leadtimes")
                     if not _same_arr(inp.thresholds, C(V["threshold"]) if "threshold" in V else _np.array([])):
@@ -232,3 +262,100 @@ _enumerated("scripts.text2nc+verif.input.get_input#BOUNDED:text-and-netcdf-carry
             "seeded random well-formed text files (the C09 generator, with obs and fcst columns) converted by the real text2nc script and read back with the real "
             "netCDF4 library under misleading file names: 60 files (quick) / 400 (thorough), values compared to float32 precision",
             _roundtrip(), ["scripts/text2nc.py:main", "verif.input.get_input", "verif.input.Netcdf.is_valid", "verif.util.is_valid_nc"])
+
+
+# ------------------------------------------------------------------ real NetCDF files, every encoding of a missing value
+def _nc_encodings():
+    """files in the documented layout written with the real netCDF4 library; the cells that are missing are encoded as masked cells
+    under the default fill value, under a declared _FillValue, as a declared missing_value, as -999, NaN or 2e30; the reader
+    must return NaN exactly there and the stored numbers elsewhere (float32-representable values, so exactly)"""
+    def body():
+        import netCDF4
+        rnd = random.Random(int(os.environ.get("VERIF_SEED", "0")) + 11)
+        n = 300 if os.environ.get("PYVC_TIER") == "thorough" else 48
+        tmp = tempfile.mkdtemp(prefix="pyvc.nc2.", dir="/var/tmp")
+        ENC = ["masked-default-fill", "declared-_FillValue", "declared-missing_value", "-999", "nan", "2e30"]
+        cases = 0
+        try:
+            for case in range(n):
+                cases += 1
+                T, L, S_ = rnd.choice([1, 2, 3]), rnd.choice([1, 2]), rnd.choice([1, 2, 3])
+                K, Q, M = rnd.choice([0, 2]), rnd.choice([0, 2]), rnd.choice([0, 3])
+                path = os.path.join(tmp, "case%d.dat" % case)
+                ds = netCDF4.Dataset(path, "w")
+                ds.createDimension("time", None); ds.createDimension("leadtime", L); ds.createDimension("location", S_)
+                if K: ds.createDimension("threshold", K)
+                if Q: ds.createDimension("quantile", Q)
+                if M: ds.createDimension("ensemble_member", M)
+                ds.createVariable("time", "i4", ("time",))[:] = [86400 * (15000 + i) for i in range(T)]
+                ds.createVariable("leadtime", "f4", ("leadtime",))[:] = [6.0 * i for i in range(L)]
+                ds.createVariable("location", "i4", ("location",))[:] = [10 + i for i in range(S_)]
+                ds.createVariable("lat", "f4", ("location",))[:] = [60.5 + i for i in range(S_)]
+                ds.createVariable("lon", "f4", ("location",))[:] = [10.25 - i for i in range(S_)]
+                if rnd.random() < 0.7:
+                    ds.createVariable("altitude", "f4", ("location",))[:] = [100.0 * i for i in range(S_)]
+                if K: ds.createVariable("threshold", "f4", ("threshold",))[:] = [0.5, 2.0]
+                if Q: ds.createVariable("quantile", "f4", ("quantile",))[:] = [0.25, 0.75]
+                want = {}
+                specs = [("obs", ("time", "leadtime", "location")), ("fcst", ("time", "leadtime", "location"))]
+                if rnd.random() < 0.5: specs.append(("pit", ("time", "leadtime", "location")))
+                if rnd.random() < 0.5: specs.append(("myscore", ("time", "leadtime", "location")))
+                if K: specs.append(("cdf", ("time", "leadtime", "location", "threshold")))
+                if Q: specs.append(("x", ("time", "leadtime", "location", "quantile")))
+                if M: specs.append(("ensemble", ("time", "leadtime", "location", "ensemble_member")))
+                encs = {}
+                for name, dims in specs:
+                    shape = [{"time": T, "leadtime": L, "location": S_, "threshold": K, "quantile": Q, "ensemble_member": M}[d] for d in dims]
+                    vals = _np.array([rnd.choice([0.0, 1.5, -2.25, 7.0, 0.125, 1024.0]) for _ in range(int(_np.prod(shape)))], float).reshape(shape)
+                    miss = _np.array([rnd.random() < 0.3 for _ in range(vals.size)]).reshape(shape)
+                    enc = rnd.choice(ENC)
+                    encs[name] = enc
+                    dtype = rnd.choice(["f4", "f8"])
+                    if enc == "declared-_FillValue":
+                        v = ds.createVariable(name, dtype, dims, fill_value=-9999.0)
+                        v[:] = _np.ma.masked_array(vals, mask=miss)
+                    elif enc == "declared-missing_value":
+                        v = ds.createVariable(name, dtype, dims)
+                        v.missing_value = _np.array(-8888.0, "f4" if dtype == "f4" else "f8")
+                        raw = vals.copy(); raw[miss] = -8888.0
+                        v[:] = raw
+                    elif enc == "masked-default-fill":
+                        v = ds.createVariable(name, dtype, dims)
+                        v[:] = _np.ma.masked_array(vals, mask=miss)
+                    else:
+                        v = ds.createVariable(name, dtype, dims)
+                        raw = vals.copy(); raw[miss] = {"-999": -999.0, "nan": _np.nan, "2e30": 2e30}[enc]
+                        v[:] = raw
+                    w = vals.copy(); w[miss] = _np.nan
+                    want[name] = w
+                ds.long_name = "Temperature"; ds.units = "K"
+                ds.close()
+                with contextlib.redirect_stdout(io.StringIO()):
+                    inp = verif.input.get_input(path)
+                if type(inp).__name__ != "Netcdf":
+                    return cases, {"problem": "a NetCDF file named .dat was not recognised from its content", "got": type(inp).__name__}
+                got = {"obs": inp.obs, "fcst": inp.fcst, "pit": inp.pit, "cdf": inp.threshold_scores, "x": inp.quantile_scores, "ensemble": inp.ensemble}
+                if "myscore" in want:
+                    got["myscore"] = inp.other_score("myscore") if "myscore" in inp.other_fields else None
+                for name, w in want.items():
+                    g = got.get(name)
+                    if g is None:
+                        return cases, {"problem": "variable %s is in the file but the reader returns None" % name, "encoding": encs[name]}
+                    g = _np.asarray(g, float)
+                    same = g.shape == w.shape and bool(_np.all((_np.isnan(g) & _np.isnan(w)) | (g == w)))
+                    if not same:
+                        return cases, {"problem": "variable %s: missing cells encoded as %s" % (name, encs[name]), "got": g.tolist(), "want": w.tolist()}
+                for name in ("pit", "cdf", "x", "ensemble"):
+                    if name not in want and got[name] is not None:
+                        return cases, {"problem": "%s returned although the file has no such variable" % name}
+        finally:
+            shutil.rmtree(tmp, ignore_errors=True)
+        return cases, None
+    return body
+
+
+_enumerated("verif.input.Netcdf#BOUNDED:real-files,every-encoding-of-missing-values", ("C10", "C04"),
+            "seeded random NetCDF files in the documented layout written with the real netCDF4 library (48 quick / 300 thorough): 1..3 times, 1..2 lead times, "
+            "1..3 locations, optional altitude / pit / other / cdf / x / ensemble variables in f4 or f8, missing cells encoded as masked (default fill), declared "
+            "_FillValue=-9999, declared missing_value=-8888, -999, NaN or 2e30; read through get_input under a misleading file name",
+            _nc_encodings(), ["verif.input.get_input", "verif.input.Netcdf.__init__", "verif.input.Netcdf.obs", "verif.util.clean"])
